@@ -4,6 +4,13 @@ import (
 	"fmt"
 	"go/ast"
 	"go/parser"
+	"go/types"
+	"runtime"
+	"sort"
+	"strings"
+	"time"
+
+	"golang.org/x/tools/go/ssa"
 )
 
 func parseTypeExpr(s string) (ast.Expr, error) { return parser.ParseExpr(s) }
@@ -22,3 +29,100 @@ func cmdReplay(args []string) int {
 }
 
 func cmdSelftest(args []string) int { return 0 }
+
+// cmdSweepAll: engine shake-out — run the executor over every function of a package.
+func cmdSweepAll(args []string) int {
+	pkg := "github.com/gocql/gocql"
+	filter := ""
+	solve := false
+	for _, a := range args {
+		switch {
+		case a == "-solve":
+			solve = true
+		case len(a) > 5 && a[:5] == "-pkg=":
+			pkg = a[5:]
+		default:
+			filter = a
+		}
+	}
+	eng, err := loadEngine(repoDir(), verifDir())
+	if err != nil {
+		fmt.Println("ERROR:", err)
+		return 2
+	}
+	installHooks(eng, "")
+	var fns []*ssa.Function
+	for _, sp := range eng.ssaPkgs {
+		if sp == nil || sp.Pkg.Path() != pkg {
+			continue
+		}
+		seen := map[*ssa.Function]bool{}
+		var visit func(f *ssa.Function)
+		visit = func(f *ssa.Function) {
+			if seen[f] || len(f.Blocks) == 0 {
+				return
+			}
+			seen[f] = true
+			fns = append(fns, f)
+			for _, a := range f.AnonFuncs {
+				visit(a)
+			}
+		}
+		for _, m := range sp.Members {
+			switch x := m.(type) {
+			case *ssa.Function:
+				visit(x)
+			case *ssa.Type:
+				for _, t := range []types.Type{x.Type(), types.NewPointer(x.Type())} {
+					ms := eng.prog.MethodSets.MethodSet(t)
+					for i := 0; i < ms.Len(); i++ {
+						if f := eng.prog.MethodValue(ms.At(i)); f != nil && f.Synthetic == "" {
+							visit(f)
+						}
+					}
+				}
+			}
+		}
+	}
+	sort.Slice(fns, func(i, j int) bool { return fns[i].String() < fns[j].String() })
+	tot := 0
+	for _, fn := range fns {
+		if filter != "" && !strings.Contains(fn.String(), filter) {
+			continue
+		}
+		t0 := time.Now()
+		r := eng.verifyFunc(fn, eng.contractFor(fn), []string{"X"}, nil, "")
+		el := time.Since(t0).Seconds()
+		if r.Err != nil {
+			fmt.Printf("ERR   %-60s %v\n", fn.String(), r.Err)
+			continue
+		}
+		lines := 0
+		if len(r.Obls) > 0 {
+			lines = r.Obls[len(r.Obls)-1].Prefix
+		}
+		tot += len(r.Obls)
+		summary := ""
+		if solve {
+			res := solveAll(r.Obls, "quick", runtime.NumCPU(), "")
+			cnt := map[string]int{}
+			var bad []string
+			for _, o := range r.Obls {
+				cnt[res[o].Status]++
+				if res[o].Status != "unsat" {
+					bad = append(bad, res[o].Status+":"+strings.SplitN(o.Name, "#", 2)[1])
+					if res[o].Status == "error" {
+						bad = append(bad, firstLines(res[o].Output, 3))
+					}
+				}
+			}
+			summary = fmt.Sprintf("%v %v", cnt, bad)
+		}
+		fmt.Printf("OK    %-60s obls=%-4d lines=%-6d %.2fs notes=%d %s\n", fn.String(), len(r.Obls), lines, el, len(r.Notes), summary)
+		for _, n := range r.Notes {
+			fmt.Printf("        note: %s\n", n)
+		}
+	}
+	fmt.Println("total obligations:", tot)
+	return 0
+}
